@@ -3,9 +3,11 @@
 //! fcv-unit quote --len L --shard I/N [--lists]      enumerate
 //! fcv-unit quote --one <hex>[,<hex>...]             check one argument list
 //!
-//! Alphabet: 20 troublesome symbols (bytes / characters). Oracles:
-//!   split(quote(s)) == [s];  bash decodes quote(s) to the bytes of s;
-//!   split(join(list)) == list and bash agrees; Path::quote == arg::quote.
+//! fcv-unit quote --templates --shard I/N           option / assignment shaped arguments
+//!
+//! Alphabet: 34 symbols (troublesome bytes / characters, every ASCII character bash gives a meaning to, '-').
+//! Oracles, for every rendering fclones prints (join = Arg::quote per argument, quote(), Path::quote()):
+//!   fclones' split() returns the list; bash (run in a directory of glob bait) returns the list.
 
 use crate::util::*;
 use fclones::verif::arg::{join, quote, split, Arg};
@@ -15,7 +17,8 @@ use std::os::unix::ffi::{OsStrExt, OsStringExt};
 use std::panic::catch_unwind;
 use std::process::{Command, Stdio};
 
-pub fn alphabet() -> Vec<Vec<u8>> {
+/// The 20 symbols of the first version (bytes / characters that need care).
+pub fn core_alphabet() -> Vec<Vec<u8>> {
     vec![
         b"a".to_vec(),
         b" ".to_vec(),
@@ -40,14 +43,23 @@ pub fn alphabet() -> Vec<Vec<u8>> {
     ]
 }
 
-fn strings_upto(len: usize) -> Vec<Vec<u8>> {
-    let alpha = alphabet();
+/// Core alphabet plus every other ASCII character that bash gives a meaning to somewhere in a word
+/// (globbing, brace expansion, operators, redirection, grouping) and '-' (option-shaped arguments).
+pub fn alphabet() -> Vec<Vec<u8>> {
+    let mut a = core_alphabet();
+    for c in b"?[]{},;&|<>()-" {
+        a.push(vec![*c]);
+    }
+    a
+}
+
+fn strings_over(alpha: &[Vec<u8>], len: usize) -> Vec<Vec<u8>> {
     let mut out: Vec<Vec<u8>> = Vec::new();
     let mut cur: Vec<Vec<u8>> = vec![vec![]];
     for _ in 0..len {
         let mut next = Vec::with_capacity(cur.len() * alpha.len());
         for s in &cur {
-            for a in &alpha {
+            for a in alpha {
                 let mut t = s.clone();
                 t.extend_from_slice(a);
                 next.push(t);
@@ -57,6 +69,38 @@ fn strings_upto(len: usize) -> Vec<Vec<u8>> {
         cur = next;
     }
     out
+}
+
+/// Directory in which bash runs: it holds files that unquoted glob characters would match ("bait"), so that a
+/// word printed without quotes decodes to something else than itself.
+static DIR_USED: std::sync::atomic::AtomicBool = std::sync::atomic::AtomicBool::new(false);
+
+fn bait_dir() -> &'static std::path::Path {
+    DIR_USED.store(true, std::sync::atomic::Ordering::SeqCst);
+    static DIR: std::sync::OnceLock<std::path::PathBuf> = std::sync::OnceLock::new();
+    DIR.get_or_init(|| {
+        let d = std::env::temp_dir().join(format!("fcv-bait-{}", std::process::id()));
+        let _ = std::fs::remove_dir_all(&d);
+        std::fs::create_dir_all(&d).expect("bait dir");
+        let plain: Vec<&[u8]> = vec![b"a", b"=", "ż".as_bytes(), "€".as_bytes(), b"#", b"!", b"~", b"-", b","];
+        let mut names: Vec<Vec<u8>> = vec![b"aaa".to_vec(), b"aaaa".to_vec()];
+        for x in &plain {
+            names.push(x.to_vec());
+            for y in &plain {
+                let mut n = x.to_vec();
+                n.extend_from_slice(y);
+                names.push(n);
+            }
+        }
+        for n in names {
+            let _ = std::fs::write(d.join(OsStr::from_bytes(&n)), b"bait");
+        }
+        d
+    })
+}
+
+fn strings_upto(len: usize) -> Vec<Vec<u8>> {
+    strings_over(&alphabet(), len)
 }
 
 const SENTINEL: &[u8] = b"\x01\x02";
@@ -78,6 +122,7 @@ fn bash_batch(lines: &[String]) -> Option<Vec<Vec<Vec<u8>>>> {
         .env("HOME", "/fcv-home-sentinel")
         .env("PATH", "/usr/bin:/bin")
         .env("LC_ALL", "C.UTF-8")
+        .current_dir(bait_dir())
         .stdin(Stdio::piped())
         .stdout(Stdio::piped())
         .stderr(Stdio::null())
@@ -194,11 +239,13 @@ struct Stats {
     bare: u64,
 }
 
-/// Checks a set of argument lists. Returns violations aggregated by signature.
+/// Checks a set of argument lists. Every rendering fclones can print for a list - `join` (Arg::quote per
+/// argument), and for single arguments the free function `quote` and `Path::quote` when they print something
+/// else - is decoded by fclones' own splitter and by bash and must give back the list.
 fn check_lists(lists: &[Vec<Vec<u8>>], agg: &mut Agg, st: &mut Stats) {
-    let mut lines: Vec<String> = Vec::with_capacity(lists.len());
-    let mut quoted_all: Vec<Vec<String>> = Vec::with_capacity(lists.len());
-    for list in lists {
+    // (index of the list, rendering, printed line, quoted words for the feature vector)
+    let mut items: Vec<(usize, &'static str, String, Vec<String>)> = Vec::with_capacity(lists.len());
+    for (li, list) in lists.iter().enumerate() {
         st.lists += 1;
         let args: Vec<Arg> = list
             .iter()
@@ -216,62 +263,56 @@ fn check_lists(lists: &[Vec<Vec<u8>>], agg: &mut Agg, st: &mut Stats) {
             }
         }
         let line = join(&args);
-        // Arg::quote (used by join) and Path::quote must agree with arg::quote
-        let expected_line = quoted.join(" ");
-        if line != expected_line {
-            agg.add(features("join_differs_from_quote", list, &quoted), || {
-                example(list, &line, &expected_line)
-            });
-        }
-        if list.len() == 1 && !list[0].contains(&b'/') {
-            let p = fclones::Path::from(OsString::from_vec(list[0].clone()));
-            let pq = p.quote();
-            if pq != quoted[0] {
-                agg.add(features("path_quote_differs", list, &quoted), || example(list, &line, &pq));
+        if list.len() == 1 {
+            if quoted[0] != line {
+                items.push((li, "quote", quoted[0].clone(), quoted.clone()));
+            }
+            if !list[0].contains(&b'/') {
+                let p = fclones::Path::from(OsString::from_vec(list[0].clone()));
+                let pq = p.quote();
+                if pq != line && pq != quoted[0] {
+                    items.push((li, "path_quote", pq, quoted.clone()));
+                }
             }
         }
+        items.push((li, "join", line, quoted));
+    }
+    for (li, rendering, line, quoted) in &items {
+        let list = &lists[*li];
+        let feat = |kind: &str| format!("{},\"rendering\":{}", features(kind, list, quoted), jstr(rendering));
         // own splitter
         let l2 = line.clone();
         let r = catch_unwind(move || split(&l2));
         match r {
-            Err(_) => agg.add(features("split_panic", list, &quoted), || example(list, &line, "panic")),
-            Ok(Err(e)) => agg.add(features("split_error", list, &quoted), || {
-                example(list, &line, &e.to_string())
-            }),
+            Err(_) => agg.add(feat("split_panic"), || example(list, line, "panic")),
+            Ok(Err(e)) => agg.add(feat("split_error"), || example(list, line, &e.to_string())),
             Ok(Ok(v)) => {
                 let got: Vec<Vec<u8>> = v.iter().map(|a| a.as_os_str().as_bytes().to_vec()).collect();
                 if &got != list {
-                    agg.add(features("split_mismatch", list, &quoted), || {
-                        example(
-                            list,
-                            &line,
-                            &got.iter().map(|s| hex(s)).collect::<Vec<_>>().join(","),
-                        )
+                    agg.add(feat("split_mismatch"), || {
+                        example(list, line, &got.iter().map(|s| hex(s)).collect::<Vec<_>>().join(","))
                     });
                 }
             }
         }
-        lines.push(line);
-        quoted_all.push(quoted);
     }
+    let lines: Vec<String> = items.iter().map(|it| it.2.clone()).collect();
     for (chunk_i, chunk) in lines.chunks(2000).enumerate() {
         let dec = bash_decode(chunk);
         for (j, d) in dec.into_iter().enumerate() {
             let idx = chunk_i * 2000 + j;
-            let list = &lists[idx];
-            st.bash_checked += 1;
+            let (li, rendering, line, quoted) = &items[idx];
+            let list = &lists[*li];
+            let feat = |kind: &str| format!("{},\"rendering\":{}", features(kind, list, quoted), jstr(rendering));
+            if *rendering == "join" {
+                st.bash_checked += 1;
+            }
             match d {
-                None => agg.add(features("bash_error", list, &quoted_all[idx]), || {
-                    example(list, &lines[idx], "bash failed")
-                }),
+                None => agg.add(feat("bash_error"), || example(list, line, "bash failed")),
                 Some(got) => {
                     if &got != list {
-                        agg.add(features("bash_mismatch", list, &quoted_all[idx]), || {
-                            example(
-                                list,
-                                &lines[idx],
-                                &got.iter().map(|s| hex(s)).collect::<Vec<_>>().join(","),
-                            )
+                        agg.add(feat("bash_mismatch"), || {
+                            example(list, line, &got.iter().map(|s| hex(s)).collect::<Vec<_>>().join(","))
                         });
                     }
                 }
@@ -292,10 +333,40 @@ pub fn main(args: &[String]) {
         let (si, sn) = shard.split_once('/').unwrap();
         let (si, sn): (usize, usize) = (si.parse().unwrap(), sn.parse().unwrap());
         let mut lists: Vec<Vec<Vec<u8>>> = Vec::new();
-        if args.iter().any(|a| a == "--lists") {
-            // all lists of <= 3 strings of length <= 1, all pairs of strings of length <= 2
+        if args.iter().any(|a| a == "--templates") {
+            // option-shaped and assignment-shaped arguments around every pair of strings of <= 1 symbol
+            let mut s1 = strings_upto(1);
+            s1.insert(0, Vec::new());
+            let cat = |parts: &[&[u8]]| -> Vec<u8> { parts.concat() };
+            let mut all: Vec<Vec<Vec<u8>>> = Vec::new();
+            for x in &s1 {
+                for y in &s1 {
+                    for t in [
+                        cat(&[b"-", x, y]),
+                        cat(&[b"--", x, y]),
+                        cat(&[b"--", x, b"=", y]),
+                        cat(&[b"--a", x, b"=", y]),
+                        cat(&[b"-", x, b"=", y]),
+                        cat(&[x, b"=", y]),
+                        cat(&[b"a", x, b"a", y]),
+                        cat(&[b"/", x, b"/", y]),
+                    ] {
+                        all.push(vec![t.clone()]);
+                        all.push(vec![b"--".to_vec(), t]);
+                    }
+                }
+            }
+            for (i, l) in all.into_iter().enumerate() {
+                if i % sn == si {
+                    st.strings += 1;
+                    lists.push(l);
+                }
+            }
+        } else if args.iter().any(|a| a == "--lists") {
+            // all lists of <= 3 strings of length <= 1 (full alphabet), all pairs of strings of length <= 2 (core
+            // alphabet unless --alpha full)
             let s1 = strings_upto(1);
-            let s2 = strings_upto(2);
+            let s2 = if arg_val(args, "--alpha") == Some("full") { strings_upto(2) } else { strings_over(&core_alphabet(), 2) };
             let mut all: Vec<Vec<Vec<u8>>> = Vec::new();
             for a in &s1 {
                 for b in &s1 {
@@ -328,6 +399,9 @@ pub fn main(args: &[String]) {
             }
         }
         check_lists(&lists, &mut agg, &mut st);
+    }
+    if DIR_USED.load(std::sync::atomic::Ordering::SeqCst) {
+        let _ = std::fs::remove_dir_all(bait_dir());
     }
     agg.print();
     println!(
